@@ -15,7 +15,7 @@ import (
 
 func init() {
 	Registry["C05"] = Set{
-		Explanation: "Decides the structural clauses of 'terminates once, with the right reason, finally': T1 every teardown site (unregisterProcess, ProcessTerminate, meta Terminate) is reached only by the single finaliser elected by swap->Terminated with the old value tested, and an outsider finalises only when no runner can exist (typestate + enum value sets, shared with C01.P5); T2 at each teardown site the reason handed to the registry/links and to the terminate callback have the same origin and that origin is the cause (ProcessRun's result, TerminateReasonPanic in recover handlers, TerminateReasonKill on the kill paths); T3 Terminated is absorbing: no CAS expects Terminated/Zombee, a swap that may overwrite Terminated restores it; T4 every MessageExit* arm of the behaviours that return the reason directly (Actor, Pool, WebWorker) returns an error wrapping that message's Reason (ErrNoConnection for node exits) or, when trapping, re-dispatches as a regular message — for MessageExitPID only if the sender is not the parent; T5 every ProcessInit/ProcessRun implementation and the runner install a deferred recover that yields TerminateReasonPanic. Added while probing: T2 for the meta handler the reason's origin set must be exactly {HandleMessage result, HandleCall result, the exit message's reason} (plus the recover constant); T6 after a handler callback no further handler callback is reachable without consulting the state word (a terminated process handles nothing more); T7 unregisterProcess/unregisterSpawnName hand their reason parameter to every fan-out they start. T1h when the runner's release CAS fails (the word was taken over by Kill or by the meta start goroutine, which by T1 did not tear down a live runner) every path to the end of the runner passes a teardown or the lost-election edge of a swap: a handed-over termination is finished. T2 follows the reason through the reason-forwarding methods of the meta process (finalize, terminated) and the hand-over field: the mailbox goroutine's own teardown names {HandleMessage, HandleCall results, exit message reason}, the handed-over one {Start result, normal when nil, panic}, recover handlers panic.",
+		Explanation: "Decides the structural clauses of 'terminates once, with the right reason, finally': T1 every teardown site (unregisterProcess, ProcessTerminate, meta Terminate) is reached only by the single finaliser elected by swap->Terminated with the old value tested, and an outsider finalises only when no runner can exist (typestate + enum value sets, shared with C01.P5); T2 at each teardown site the reason handed to the registry/links and to the terminate callback have the same origin and that origin is the cause (ProcessRun's result, TerminateReasonPanic in recover handlers, TerminateReasonKill on the kill paths); T3 Terminated is absorbing: no CAS expects Terminated/Zombee, a swap that may overwrite Terminated restores it; T4 every MessageExit* arm of the behaviours that return the reason directly (Actor, Pool, WebWorker) returns an error wrapping that message's Reason (ErrNoConnection for node exits) or, when trapping, re-dispatches as a regular message — for MessageExitPID only if the sender is not the parent; T5 every ProcessInit/ProcessRun implementation and the runner install a deferred recover that yields TerminateReasonPanic. Added while probing: T2 for the meta handler the reason's origin set must be exactly {HandleMessage result, HandleCall result, the exit message's reason} (plus the recover constant); T6 after a handler callback no further handler callback is reachable without consulting the state word (a terminated process handles nothing more); T7 unregisterProcess/unregisterSpawnName hand their reason parameter to every fan-out they start. T1h when the runner's release CAS fails (the word was taken over by Kill or by the meta start goroutine, which by T1 did not tear down a live runner) every path to the end of the runner passes a teardown or the lost-election edge of a swap: a handed-over termination is finished. T2 follows the reason through the reason-forwarding methods of the meta process (finalize, terminated) and the hand-over field: the mailbox goroutine's own teardown names {HandleMessage, HandleCall results, exit message reason}, the handed-over one {Start result, normal when nil, panic}, recover handlers panic. T8 every delivered MessageExitPID{PID: x} is sent in the name of x (ordinary termination, failed start, node down): the only sender an actor never traps is its parent, and the core is the parent of everything the node starts itself.",
 		NotDecided: []string{
 			"that nothing of the process runs afterwards in goroutines the user started",
 			"the supervisor's own exit handling (its state machines; see C08)",
@@ -49,6 +49,7 @@ func runC05(p *load.Program, r *core.Report) {
 	c05ExitArms(a, r)
 	c05Panic(a, r)
 	c05Recheck(a, r)
+	c05ExitSender(a, r)
 }
 
 // c05Recheck: T6 — between two handler callbacks of one runner the state word is consulted, so a
@@ -514,7 +515,22 @@ func c05Reasons(a *Anchors, r *core.Report) {
 			problem := ""
 			startSet := []string{"call:Start"}
 			startMay := []string{"global:TerminateReasonNormal", "global:TerminateReasonPanic"}
+			// the hand-over site: reached only through the failure edge of the release CAS — the word was
+			// taken away by the goroutine that runs Start, the reason is the one that goroutine left
+			handover := false
+			if f == a.MetaLoop {
+				ws := metaWordSpec(a)
+				for _, op := range stateOps(a.P, ws.owner, ws.field) {
+					if op.Fn == f && op.Kind == "cas" && op.Old == ws.running && op.New == ws.sleep && op.Result != nil {
+						if _, fl, c := boolEdges(op.Result); c && edgesDominate(fl, in) {
+							handover = true
+						}
+					}
+				}
+			}
 			switch {
+			case handover && !(strings.HasPrefix(first, "field:") && first != "field:Message"):
+				problem = "this call finishes a termination that was handed over by the goroutine running Start (it is reached only when the release CAS fails), but it is given " + first + " instead of the reason that goroutine recorded; "
 			case have["?"]:
 				r.Unk(rule, key, fn, pos, inst, "cannot determine the origin of the reason: "+first)
 				return
@@ -1024,5 +1040,104 @@ func c05Panic(a *Anchors, r *core.Report) {
 		} else {
 			r.Bad(rule, key, fn, a.P.Pos(lp.Pos()), "the runner goroutine recovers panics of callbacks", "no deferred recover in the runner goroutine")
 		}
+	}
+}
+
+// c05ExitSender: T8 — an actor exempts exactly one sender from exit trapping: its parent. The exit
+// signal that reports "the process you are linked with is gone" (gen.MessageExitPID) therefore
+// carries that process as its sender, at every site that delivers one — the ordinary termination,
+// the failed start and the loss of the connection. Sent in the core's name it is taken for the
+// parent's by every process the node started itself, and a trapping process is terminated.
+func c05ExitSender(a *Anchors, r *core.Report) {
+	rule := "C05.T8 exit-signal-names-the-gone-process-as-sender"
+	r.Floor(rule, 3)
+	// the PID stored into a MessageExitPID value
+	exitPidOf := func(v ssa.Value) ssa.Value {
+		v = stripIface(v)
+		// composite literal: local alloc with field stores, loaded
+		if ld, ok := v.(*ssa.UnOp); ok && ld.Op == token.MUL {
+			v = ld.X
+		}
+		al, ok := v.(*ssa.Alloc)
+		if !ok {
+			return nil
+		}
+		if n := namedOf(al.Type().(*types.Pointer).Elem()); n != "gen.MessageExitPID" {
+			return nil
+		}
+		var pid ssa.Value
+		for _, rf := range *al.Referrers() {
+			if fa, ok := rf.(*ssa.FieldAddr); ok {
+				if _, fl := fieldOwner(fa); fl == "PID" {
+					for _, r2 := range *fa.Referrers() {
+						if st, ok := r2.(*ssa.Store); ok {
+							pid = st.Val
+						}
+					}
+				}
+			}
+		}
+		return pid
+	}
+	same := func(x, y ssa.Value) bool {
+		if x == y || canon(x) == canon(y) || resolveLocalCopy(x) == resolveLocalCopy(y) {
+			return true
+		}
+		bx, px, okx := fieldPath(x)
+		by, py, oky := fieldPath(y)
+		return okx && oky && canon(bx) == canon(by) && strings.Join(px, ".") == strings.Join(py, ".")
+	}
+	seq := map[string]int{}
+	for _, f := range funcsOfPkgs(a.P, "node") {
+		eachInstr(f, func(in ssa.Instruction) {
+			cc := callCommon(in)
+			if cc == nil || !callsNamed(in, "sendExitMessage") {
+				return
+			}
+			args := cc.Args
+			if len(args) < 4 {
+				return
+			}
+			from, msg := args[1], args[3]
+			// collect (message, from) pairs: directly, or per incoming edge of aligned phis
+			type pair struct{ m, f ssa.Value }
+			var pairs []pair
+			if mph, ok := msg.(*ssa.Phi); ok {
+				fph, _ := from.(*ssa.Phi)
+				for i, e := range mph.Edges {
+					fv := from
+					if fph != nil && fph.Block() == mph.Block() {
+						fv = fph.Edges[i]
+					}
+					pairs = append(pairs, pair{e, fv})
+				}
+			} else {
+				pairs = append(pairs, pair{msg, from})
+			}
+			n := 0
+			var bad []string
+			for _, pr := range pairs {
+				pid := exitPidOf(pr.m)
+				if pid == nil {
+					continue
+				}
+				n++
+				if !same(pid, pr.f) {
+					bad = append(bad, "MessageExitPID{PID: x} is sent with a sender other than x")
+				}
+			}
+			if n == 0 {
+				return
+			}
+			fn := fname(f)
+			seq[fn]++
+			key := fmt.Sprintf("C05.T8|%s|exit#%d", fn, seq[fn])
+			inst := "the exit signal for a linked process that is gone is sent in that process's name"
+			if len(bad) > 0 {
+				r.Bad(rule, key, fn, a.P.Pos(in.Pos()), inst, bad[0]+": a process started by the node itself has the core as its parent and does not trap 'its parent's' exit — a trapping process linked to a remote one is terminated when the connection drops")
+			} else {
+				r.OK(rule, key, fn, a.P.Pos(in.Pos()), inst, "sender == MessageExitPID.PID")
+			}
+		})
 	}
 }
